@@ -107,7 +107,7 @@ def rule_undokept(ctx, ig, prop='C05'):
         ctx.check(not is_undo, f'{prop}.UNDOKEPT', ctx.key(f, e.call, 'delete on backup path'),
                   f'delete on the backup path takes keys from {norm(src) if src is not None else txt} (spent UTXO rows), not undo rows',
                   'an undo row is deleted on the backup path: a crash before the UTXO commit leaves the block impossible to undo',
-                  loc=f'{f.unit.relpath}:{e.call.lineno}')
+                  loc=f'{f.unit.relpath}:{int(round(e.call.lineno))}')
     return n
 
 
